@@ -462,6 +462,17 @@ func TestVerifC12(t *testing.T) {
 					rep.Violate("C12/valid-invitation-refused", "RPC: "+err.Error(), iv)
 				} else {
 					rep.Count("valid_joined_by_rpc", 1)
+					// the refused invitations above named the same identifier: none of them may have left anything behind that
+					// is served now in place of the genuine group (type, secret, signature as in the genuine invitation)
+					info, ierr := svc.GroupInfo(ctx, &protocoltypes.GroupInfo_Request{GroupPk: g.PublicKey})
+					rep.Case(fmt.Sprintf("rpc-inv%d/group-info-after-genuine-join", iv))
+					if ierr != nil {
+						rep.Violate("C12/joined-group-not-served", "GroupInfo fails for a group that was just joined with its genuine invitation: "+ierr.Error(), iv)
+					} else if ig := info.GetGroup(); ig == nil || ig.GroupType != g.GroupType || !bytes.Equal(ig.Secret, g.Secret) || !bytes.Equal(ig.SecretSig, g.SecretSig) || !bytes.Equal(ig.PublicKey, g.PublicKey) {
+						rep.Violate("C12/refused-invitation-left-traces", "after refused altered invitations and the genuine join, the node serves a group whose type, secret or signature is not the genuine invitation's", map[string]interface{}{"served_type": ig.GetGroupType().String(), "genuine_type": g.GroupType.String()})
+					} else {
+						rep.Count("genuine_group_served_after_refusals", 1)
+					}
 				}
 			}
 		}
